@@ -10,7 +10,7 @@ from vf.spec import AnyT, ObjectT, Program, Unspecified, canon
 PROP = "C08"
 SHARDS = {"quick": 8, "thorough": 16}
 TIME_CAP = {"quick": 70, "thorough": 900}
-REQUIRED = ["discriminated_purity_checks", "deser_pass_through_json_pairs", "deser_pairs", "deser_no_copy_pairs", "deser_ctor_pairs", "deser_method_vs_function", "deser_pass_through", "alias_walks", "purity_checks", "ser_pairs", "ser_no_copy_pairs", "ser_check_type_pairs", "ser_pass_through_pairs", "ser_alias_walks", "programs"]
+REQUIRED = ["constructor_shape_cases", "discriminated_purity_checks", "deser_pass_through_json_pairs", "deser_pairs", "deser_no_copy_pairs", "deser_ctor_pairs", "deser_method_vs_function", "deser_pass_through", "alias_walks", "purity_checks", "ser_pairs", "ser_no_copy_pairs", "ser_check_type_pairs", "ser_pass_through_pairs", "ser_alias_walks", "programs"]
 # compiled-tree node classes this workload is expected to reach: reported as coverage gaps when missing, never a verdict
 # (a renamed internal class must not turn into an alarm)
 EXPECTED_NODES = ["node:ListCheckOnlyMethod", "node:ListMethod", "node:MappingCheckOnly", "node:MappingMethod", "node:SimpleObjectMethod", "node:ObjectMethod", "node:FieldsConstructor"]
@@ -397,8 +397,186 @@ def check_ser(env, prog, values, label):
                 env.violation(feats, {**wit, "flags": flags, "types": repr(types), "variant": r.brief(), "completed": norm(r, True)[1][:300], "expected": n0c[1][:300]})
 
 
+CTOR_SRC = """
+import dataclasses
+from dataclasses import dataclass, field, InitVar
+from typing import List, Optional
+
+
+@dataclass
+class Plain:
+    a: int
+    b: str = "d"
+
+
+@dataclass(init=False)
+class OwnInit:  # hand-written constructor with the very signature dataclass would have generated
+    a: int
+    b: str = "d"
+
+    def __init__(self, a, b="d"):
+        self.a = a * 2
+        self.b = b.strip()
+
+
+class SubInit(Plain):  # plain subclass overriding the constructor, same signature
+    def __init__(self, a, b="d"):
+        super().__init__(a + 1, b.upper())
+
+
+@dataclass
+class PostBase:
+    a: int
+    b: str = "d"
+
+    def __post_init__(self):
+        self.b = self.b.lower()
+
+
+@dataclass
+class PostInherited(PostBase):  # __post_init__ only inherited
+    pass
+
+
+class PostMixin:
+    def __post_init__(self):
+        self.total = self.a + len(self.b)
+
+
+@dataclass
+class PostFromMixin(PostMixin):
+    a: int
+    b: str = "d"
+
+
+@dataclass
+class OwnNew:
+    a: int
+    b: str = "d"
+
+    def __new__(cls, *args, **kwargs):
+        self = super().__new__(cls)
+        self.made_by_new = True
+        return self
+
+
+@dataclass
+class OwnSetattr:
+    a: int
+    b: str = "d"
+
+    def __setattr__(self, name, value):
+        object.__setattr__(self, name, value * 2 if name == "a" else value)
+
+
+@dataclass(frozen=True)
+class Frozen:
+    a: int
+    b: str = "d"
+
+
+@dataclass
+class Slotted:
+    __slots__ = ("a", "b")
+    a: int
+    b: str
+
+
+@dataclass
+class InheritedInit(Plain):  # adds nothing: inherits the generated constructor through a regenerated one
+    pass
+
+
+@dataclass(init=False)
+class NoInitInherited(Plain):  # init=False without own constructor: Plain's generated one is inherited
+    pass
+
+
+@dataclass
+class KwOnlyInit:
+    a: int
+    b: str = field(default="d", kw_only=True)
+
+
+@dataclass
+class DefaultFactory:
+    a: int
+    b: List[int] = field(default_factory=lambda: [7])
+
+
+@dataclass
+class Holder:
+    own: OwnInit
+    subs: List[SubInit]
+    post: Optional[PostInherited] = None
+"""
+
+
+def constructor_workload(env):
+    """every way a dataclass can be given a construction that differs from assigning the deserialized fields: the result of
+    deserialize must not depend on settings.deserialization.override_dataclass_constructors"""
+    import sys
+    import types
+    from typing import List
+    from apischema import deserialize, deserialization_method, settings
+
+    mod = types.ModuleType(f"vfc08ctor_{env.shard}")
+    sys.modules[mod.__name__] = mod
+    try:
+        exec(compile(CTOR_SRC, f"<{mod.__name__}>", "exec"), mod.__dict__)
+        names = ["Plain", "OwnInit", "SubInit", "PostInherited", "PostFromMixin", "OwnNew", "OwnSetattr", "Frozen", "Slotted", "InheritedInit", "NoInitInherited",
+                 "KwOnlyInit", "DefaultFactory", "Holder"]
+        data = [{"a": 3, "b": " Xy "}, {"a": 3}, {"a": "bad"}, {}, {"a": 1, "b": "q", "extra": 0}]
+        hdata = [{"own": {"a": 1, "b": " Z "}, "subs": [{"a": 1}, {"a": 2, "b": "q"}], "post": {"a": 1, "b": "QQ"}}, {"own": {"a": 1}, "subs": []}, {"own": {}, "subs": [{"a": "bad"}]}]
+
+        def state(v, depth=0):
+            if isinstance(v, list):
+                return [state(e, depth + 1) for e in v]
+            if dataclasses_is(v) and depth < 5:
+                d = {k: state(getattr(v, k, "<unset>"), depth + 1) for k in sorted(set(getattr(v, "__dict__", {})) | {f for f in getattr(type(v), "__dataclass_fields__", {})})}
+                return [type(v).__name__, d]
+            return repr(v)
+
+        def dataclasses_is(v):
+            import dataclasses
+            return dataclasses.is_dataclass(v) and not isinstance(v, type)
+
+        for name in names:
+            cls = getattr(mod, name)
+            for wrap, T, mk in (("bare", cls, lambda d: d), ("list", List[cls], lambda d: [d, d])):
+                for d0 in (hdata if name == "Holder" else data):
+                    d = mk(d0)
+                    outs = {}
+                    for override in (False, True):
+                        for how in ("function", "method"):
+                            harness.reset_all()
+                            settings.deserialization.override_dataclass_constructors = override
+                            try:
+                                if how == "function":
+                                    r = harness.call(deserialize, T, json.loads(json.dumps(d)))
+                                else:
+                                    m = harness.call(deserialization_method, T)
+                                    r = harness.call(m.value, json.loads(json.dumps(d))) if m.kind == "ok" else m
+                            finally:
+                                settings.deserialization.override_dataclass_constructors = False
+                            outs[(override, how)] = (r.kind, state(r.value) if r.kind == "ok" else r.brief())
+                    env.count("constructor_shape_cases")
+                    env.case("constructor-shape", name, wrap)
+                    ref = outs[(False, "function")]
+                    for (override, how), o in outs.items():
+                        if o != ref:
+                            env.violation({"kind": "result-depends-on-option", "option": "override_dataclass_constructors" if override else "precomputed-method", "family": "constructor-shapes",
+                                           "shape": name}, {"program": CTOR_SRC, "type": f"{wrap}[{name}]", "datum": d, "reference": ref, "variant": o, "how": how})
+                            break
+    finally:
+        sys.modules.pop(mod.__name__, None)
+        harness.reset_all()
+
+
 def run(env):
     from vf import disc
+    if env.shard == 0:
+        constructor_workload(env)
     disc.run_family(env, disc.check_purity, env.n(96, 3000))  # discriminated-union families first (their own budget)
     harness.tag_errors(False)
     rng = env.rng
